@@ -511,6 +511,5 @@ theorem postPoll_rel (Q : Bytes → Bool) (d : Dev) (env : Env) (o : Oracle) (s'
     have hplugs : r3.1.dev.plugs = d.plugs := h3.1.trans h12.plugs
     exact processActionF_rel Q _ r3.1 o [] r3.2 s' (by rw [hargs]; exact hS) (hQ.congr hplugs) h3a
 
-#print axioms postPoll_rel
 
 end Pm.Dev2
